@@ -217,7 +217,7 @@ def stats(run, col):
 
 
 def shards(tier, seed):
-    return core_shards(ID, tier, seed, ncfg=(2 if tier == "quick" else 10), ncases=(10 if tier == "quick" else 20))
+    return core_shards(ID, tier, seed, ncfg=(2 if tier == "quick" else 6), ncases=(10 if tier == "quick" else 15))
 
 
 def run_shard(sh):
